@@ -20,6 +20,17 @@ CLAIMS = {
              "picky; proof tracking on/off; incremental histories) is replayed through the proved executable step function; "
              "a clause that is not RUP at that moment is rejected with the script as replay.",
         design_ref="5 C12, 4 Prop/Cdcl"),
+    "C13": dict(
+        technique="Lean 4 proof (preprocessing rewrites are equivalences / conservative extensions for every term and interpretation) tied by per-check comparison of assertions and engine roots with Lean-validated models",
+        text="Theorems: substitution by equal-valued targets keeps every value; variable elimination by a definition is a "
+             "conservative extension in both directions (the reconstruction direction included); distinct expansion, numeric "
+             "equality split, and the div/mod and ite auxiliary definitions hold exactly for the value of the replaced term. "
+             "Tie: at every check of generated incremental histories (substitutions on/off, interpolation / core modes) the "
+             "conjunction of the roots handed to the engine for the active levels is compared with the asserted formulas: "
+             "models of the roots (proposed by z3, validated by the Lean evaluator) must satisfy the assertions, and models "
+             "of the assertions must extend over the auxiliary symbols to the roots. Partial: logics with uninterpreted "
+             "functions are not in the corpus, and non-extension is reported on an uncertified z3 `unsat`.",
+        design_ref="5 C13"),
     "C01": dict(
         technique="Lean 4 proof (SMT-level abstract machine: unsat soundness for all accepted event sequences) tied by trace refinement with kernel-checked theory clauses",
         text="Theorem Smt.unsat_sound: for every event sequence accepted by the executable step function (input clauses "
